@@ -279,7 +279,7 @@ def gen_dataset(rng, i, shape=None):
     names = rng.sample(CNAMES, ncomp)
     comps = []
     for j, nm in enumerate(names):
-        kind = rng.choice(["f", "f", "f", "i", "c", "C", "t", "u", "d", "p", "l"])
+        kind = rng.choice(["f", "f", "f", "i", "c", "C", "C", "t", "u", "d", "p", "l"])
         if shape[0] != "region" and len(shape) > 1 and kind in ("c", "C") and rng.random() < 0.5:
             kind = "f"
         comps.append([kind, nm, rng.randint(0, 99)])
@@ -631,7 +631,7 @@ class Sess(Family):
 
     def cases(self, tier, rng):
         yield from systematic_sessions(tier)
-        n = 2600 if tier == "quick" else 60000
+        n = 2400 if tier == "quick" else 60000
         for i in range(n):
             c = gen_session(rng)
             if i % 11 == 0:
@@ -721,7 +721,8 @@ def _mentions(case, di):
 
 
 D0 = ["d0", [6], [["f", "x", 1], ["f", "y", 2], ["c", "k", 3], ["c", "k2", 8], ["i", "n", 4], ["t", "t", 5], ["d", "dd", 6], ["p", "pp", 7], ["l", "ll", 9], ["l", "l2", 10], ["u", "uu", 4]], None, 1, 1]
-D1 = ["d1", [6], [["f", "a", 11], ["f", "b", 12], ["i", "n", 14], ["u", "uu", 5], ["c", "k", 13], ["C", "kc", 15]], "id", 2, 2]
+# kc: explicit categories, unsorted, every one of them used, units (seed 23: variant 2); kj: the same with jitter('uniform') (seed 9)
+D1 = ["d1", [6], [["f", "a", 11], ["f", "b", 12], ["i", "n", 14], ["u", "uu", 5], ["c", "k", 13], ["C", "kc", 23], ["C", "kj", 9]], "id", 2, 2]
 D2 = ["d2", [2, 2, 3], [["f", "x", 21], ["f", "y", 22], ["f", "z", 23], ["i", "n", 24]], ["aff", 1], None, 3]
 D3 = ["d3", [2, 3], [["f", "x", 31], ["f", "y", 33], ["c", "k", 32]], ["aff", 2], 4, 4]
 D4 = ["d4", [2, 3], [["f", "x", 41], ["i", "n", 42]], None, 5, 5]
@@ -816,6 +817,23 @@ def systematic_sessions(tier):
         for sh in ([3], [2, 3], [2, 2, 2], [], [0]):
             for co in (None, "id", ["aff", m]):
                 yield {"data": [["d", sh, [["f", "x", m], ["i", "n", m + 1]], co, m, m]], "links": [], "groups": [[["mask", 0, 5], None, None]]}
+    # categorical components with an explicit category list in every relation to the labels (the seed selects the
+    # variant: unsorted / rotated / sorted with every category used, unused categories first / last, a duplicate,
+    # a label outside the list), with and without jitter and units, each under selections BY CODE (a changed
+    # category order changes the mask) and by label
+    for v in range(7):
+        for j in (0, 1, 2):
+            seed = v + 7 * j + 21 * ((v + j) % 3)
+            for shape in ([7], [2, 3]):
+                ds = ["dc", shape, [["f", "x", 1], ["C", "k", seed], ["c", "k0", seed], ["C", "k2", (seed * 5 + 2) % 100]], None, None, 0]
+                sels = [["cat", 0, "k", [0]], ["cat", 0, "k", [2]], ["cat", 0, "k", [1, 3]], ["catroi", 0, "k", ["a", "cc"]],
+                        ["and", ["cat", 0, "k", [0, 1]], ["inv", ["cat", 0, "k2", [1]]]]]
+                if tier != "thorough":
+                    sels = [sels[(v + j) % 3], sels[3 + (v + j) % 2]]
+                for sel in sels:
+                    if sel[0] == "catroi" and len(shape) > 1:
+                        continue
+                    yield {"data": [ds], "links": [], "groups": [[sel, None, None]]}
     yield dict(base, groups=[[["unknown-subclass"], None, None]])
     for via in (True,):
         yield dict(base, groups=[[leaves["range"], None, 3]], via_app=True)
@@ -1076,7 +1094,8 @@ RECIPES = {
     "glue.core.roi_pretransforms.RadianTransform": (_st(["roi2", 0, "x", "y", RECT, ["rad", ["x"], ["fsl", None]]]), P_PRE),
     "glue.core.roi_pretransforms.FullSphereLongitudeTransform": (_st(["roi2", 0, "x", "y", RECT, ["fsl", ["rad", ["y"], None]]]), P_PRE),
     CMP + "Component": (_st(["base"]), _comp("x")),
-    CMP + "CategoricalComponent": (_st(["base"]), _comp("k")),
+    # explicit, non-alphabetical category order in which every category occurs + a selection by code
+    CMP + "CategoricalComponent": (_st(["cat", 1, "kc", [0, 2]]), _comp("kc", 1)),
     CMP + "DateTimeComponent": (_st(["base"]), _comp("t")),
     CMP + "DerivedComponent": (_st(["base"]), _comp("dd")),
     CMP + "CoordinateComponent": (_st(["base"]), lambda dc: dc[0].get_component(dc[0].pixel_component_ids[0])),
@@ -1184,8 +1203,10 @@ class RecFam(Sess):
     family_tag = "rec"
 
     def cases(self, tier, rng):
-        yield from systematic_sessions(tier)
-        n = 500 if tier == "quick" else 20000
+        for i, c in enumerate(systematic_sessions(tier)):
+            if tier == "thorough" or i % 2 == 0:      # (the sess family runs all of them)
+                yield c
+        n = 320 if tier == "quick" else 20000
         for i in range(n):
             yield gen_session(rng)
 
